@@ -24,6 +24,16 @@ from luna.gateware.usb.usb2.endpoints.status import USBSignalInEndpoint
 
 IDLE, SEND, AWAIT, RETRY = 0, 1, 2, 3
 
+LEVEL = "proof"
+ASSUMPTIONS = [
+    "C17: an ACK strobe and a token strobe never coincide (consequence of the C01/C04 ensures on the shared receive path)",
+    "C17: a 'poll' is tokenizer.ready_for_response & is_in & endpoint==N; response slots while a packet is being sent or "
+    "before any new token after it are specified as ignored (they cannot belong to a new IN token)",
+]
+EXPLANATION = ("1-induction on the netlist of the real USBSignalInEndpoint: the FSM and its registers refine a four-phase "
+               "ghost protocol machine (IDLE/SEND/AWAIT/RETRY) driven only by the endpoint's inputs; every ensures clause is "
+               "proved for all states satisfying the refinement map, hence for histories of any length.")
+
 
 def make(width, endianness, epnum=3, signal_domain="usb"):
     def contract(c):
@@ -138,3 +148,7 @@ def contracts(tier):
     if tier != "quick":
         yield ("USBSignalInEndpoint", "width16_little_ep0", make(16, "little", epnum=0))
         yield ("USBSignalInEndpoint", "width16_big_ep15", make(16, "big", epnum=15))
+        # signal_domain != "usb": elaborate() instantiates an FFSynchronizer on a 1-bit copy whose output is never used;
+        # the latch still samples `signal` directly, so (with all domains ticking together) the same contract holds.
+        # Clock-domain-crossing safety of that direct sample is outside this property.
+        yield ("USBSignalInEndpoint", "width16_little_signal_domain_sync", make(16, "little", signal_domain="sync"))
